@@ -225,3 +225,44 @@ def float_order_suite(ctx, count):
         if len(derivs) > 1:
             ctx.nontrivial_add(('float', k))
     ctx.extra['float_order_problems'] = count
+
+
+def long_sentence_suite(ctx, lengths):
+    """sentences beyond 256 tokens (the program accepts them with --max-length raised): one category, one binary rule
+    with the head on the right or with mixed heads, so that head positions above 255 occur; oracle only (score
+    recomputed from the head flags, leaves in order) — the model's agenda is a plain list"""
+    rng = ctx.rng
+    if not setup(ctx):
+        return
+    n_ok = 0
+    for n in lengths:
+        p = S.Problem()
+        p.n, p.T = n, 1
+        p.tags = [[rng.randint(-64, 0)] for _ in range(n)]
+        p.deps = [[rng.randint(-128, 0) for _ in range(n + 1)] for _ in range(n)]
+        p.roots = [0]
+        mixed = rng.random() < 0.5
+        p.bin = {(0, 0): [(0, False)] + ([(0, True)] if mixed else [])}
+        p.head_uniform = not mixed
+        p.max_step = 10000000
+        desc = {'n': n, 'mixed_heads': mixed, 'tags': p.tags[:5], 'note': 'long sentence; the full problem is regenerated from the seed'}
+        try:
+            res = S.run_cpp(p, trace=False)
+        except Exception as e:
+            ctx.fail(f'the search raised {type(e).__name__}: {e} on a sentence of {n} tokens', desc, fingerprint=['long-raise'])
+            continue
+        ctx.evaluations += 1
+        if not res['results']:
+            ctx.fail(f'a sentence of {n} tokens with a total grammar has no parse', desc, fingerprint=['long-fail'])
+            continue
+        for score, tree in res['results']:
+            s, head, _ = S.recompute(p, tree)
+            if [l[1] for l in S.tree_leaves(tree)] != list(range(n)):
+                ctx.fail(f'the leaves of the tree returned for {n} tokens are not the tokens in order', desc, fingerprint=['long-leaves'])
+            elif s + p.deps[head][0] != score:
+                ctx.fail(f'reported score {score} but the tree recomputes to {s + p.deps[head][0]} (1/{S.SCALE}) on a sentence of {n} tokens',
+                         desc, fingerprint=['long-score'])
+            else:
+                n_ok += 1
+                ctx.nontrivial_add(('long', n, score))
+    ctx.extra['long_sentences_scored'] = n_ok
